@@ -347,6 +347,7 @@ def config_text(c, geom=None, rebin=False, par=None):
         L.append("  stepZeroData on")
     if c.get("eb"):
         L += ["  ebMeta on", "  targetDistFile %s" % target_file_name(c), "  ebMetaEquilSteps %d" % c["eb"]["equil"]]
+    L += ["  " + t for t in c.get("meta_extra", [])]
     L += ["}", "EOF", "show atomf 0 energy 0 af 1 bias 1"]
     if c.get("eb"):
         L.append("metatarget m")
@@ -405,6 +406,8 @@ def scenario_text(c, dump=True):
     if c["it0"]:
         L.append("setstep %d" % c["it0"])
     L += config_text(c)
+    if c.get("outprefix"):
+        L.append("outprefix %s" % c["outprefix"])
     for d, v in enumerate(c["vars"]):
         if v["kind"] in (1, 2):
             L.append("pos %d 0 0 0" % first[d])
@@ -1294,6 +1297,136 @@ def reload_witness(run, exe, d):
                           % ("with" if use_grids else "without", en[3], en[4]), {"kind": "scenario", "scenario": txt})
 
 
+# ------------------------------------------------------------------------------ multiple replicas (oracle only)
+def gen_replica_case(r, k):
+    """two walkers sharing their hills through files: B runs first (alone in the registry), then A, which reads the
+    state and the hills of B at its steps that are multiples of replicaUpdateFrequency"""
+    nd = r.choice([1, 1, 2])
+    f = {"nd": nd, "use_grids": r.random() < 0.8, "p_expand": 0.0, "p_eb": 0.0, "p_restart": 0.0, "p_save": 0.0, "p_pmf": 0.0,
+         "keep": False, "p_vector": 0.0, "periodic": False, "p_out": r.choice([0.1, 0.3])}
+    A = gen_scn(r, "ra%s" % k, dict(f))
+    B = json.loads(json.dumps(A))
+    B["events"] = [tuple(e) for e in gen_scn(r, "x", dict(f, nd=nd))["events"]]
+    # the same variables for both walkers: positions of B drawn around the grid of A
+    lo = [v["lower"] for v in A["vars"]]
+    B["events"] = []
+    for s_ in range(r.randint(4, 12)):
+        B["events"].append(("step", False, [v["lower"] + r.randint(-8, v["nx"] * 4 + 8) * v["w"] / 4 for v in A["vars"]]))
+    for v in A["vars"]:
+        v["hlo"] = v["hup"] = False
+    B["vars"] = json.loads(json.dumps(A["vars"]))
+    B["id"] = "rb%s" % k
+    B["it0"] = 0
+    reg = "c05_reg_%s.txt" % k
+    ruf = r.choice([1, 2, 3])
+    for c, rid, u in ((A, "A", ruf), (B, "B", 1000)):
+        c["pmf"] = c["pmf_keep"] = False
+        c["binary"] = False
+        c["meta_extra"] = ["multipleReplicas on", "replicaID %s" % rid, "replicasRegistry %s" % reg, "replicaUpdateFrequency %d" % u]
+        c["outprefix"] = "c05w%s_%s" % (rid, k)
+    A["ruf"] = ruf
+    A["registry"] = reg
+    return A, B
+
+
+def replica_oracle(c, impl, traj, fhills):
+    """walker A: own hills on schedule + the hills of the other walker, received at the first step that is a multiple of
+    replicaUpdateFrequency (pending until the next multiple of gridsUpdateFrequency)"""
+    st = steps_of(c)
+    tab, pend, ftab, fpend = [], [], [], []
+    received = False
+    traj = list(traj)
+    geom = [(v["nx"], v["lower"], v["upper"]) for v in c["vars"]]
+    nrec = 0
+    for n, (it, rel, cont, zs) in enumerate(st):
+        im = impl[n]
+        x = im["cv"]
+        deposit = (it % c["freq"] == 0) and ((rel > 0 and not cont) or c["stepzero"])
+        if deposit:
+            wgt = c["W"]
+            if c["wt"]:
+                vhere = spec_bias(c, geom, x, tab + ftab, pend + fpend)[0]
+                vown = spec_bias(c, geom, x, tab, pend)[0]
+                wgt = c["W"] * math.exp(-vhere / (c["bt"] * KB))
+            if not traj or traj[0][0] != it:
+                return ("replicas:schedule", "step %d (it=%d): no hill added by the walker" % (n, it), n), nrec
+            seen = traj.pop(0)
+            if not close(seen[1], wgt):
+                own = c["wt"] and close(seen[1], c["W"] * math.exp(-vown / (c["bt"] * KB)))
+                return ("replicas:well-tempered-height-from-own-hills-only" if own else "replicas:hill-weight",
+                        "step %d (it=%d): walker A deposits at %s a hill of weight %r; hillWeight*exp(-V/kT) with V the bias at that "
+                        "point (own hills and those received from walker B) is %r" % (n, it, x, seen[1], wgt), n), nrec
+            pend.append((it, wgt, [list(t) for t in x], [v["sigma"] for v in c["vars"]]))
+        if c["use_grids"] and it % c["gfreq"] == 0:
+            tab += pend
+            pend = []
+            ftab += fpend
+            fpend = []
+        if it % c["ruf"] == 0 and not received:
+            received = True
+            fpend = list(fhills)
+        if received:
+            nrec += 1
+        eE, eF, ins = spec_bias(c, geom, x, tab + ftab, pend + fpend)
+        if not close(im["E"], eE) or not force_close(im["F"], eF):
+            return ("replicas:energy", "step %d (it=%d, x=%s): energy %r force %s; own hills + the %d hills of walker B give %r %s" % (
+                n, it, x, im["E"], im["F"], len(fhills) if received else 0, eE, eF), n), nrec
+    return None, nrec
+
+
+def fixed_replica_case():
+    """walker B leaves three hills at 3.5; walker A, well-tempered (biasTemperature 300), arrives there: its hills are scaled by
+    the bias of both walkers"""
+    ev = lambda zs: [("step", False, [z]) for z in zs]
+    A = _cfg("ra_w", [_var()], [], wt=True)
+    B = _cfg("rb_w", [_var()], [], wt=True)
+    A["events"], B["events"] = ev([1.5, 3.5, 3.5, 3.25, -0.25, 3.5]), ev([3.5, 3.5, 3.5, 3.5])
+    for c, rid, u in ((A, "A", 2), (B, "B", 1000)):
+        c["meta_extra"] = ["multipleReplicas on", "replicaID %s" % rid, "replicasRegistry c05_reg_w.txt", "replicaUpdateFrequency %d" % u]
+        c["outprefix"] = "c05w%s_w" % rid
+    A["ruf"] = 2
+    return A, B
+
+
+def replica_cases(run, exe, r, d, ncases):
+    for k in ["w"] + list(range(ncases)):
+        A, B = fixed_replica_case() if k == "w" else gen_replica_case(r, k)
+        for fn in os.listdir(d):
+            if fn.startswith("c05w") or fn.startswith("c05_reg_") or fn.endswith(".files.txt"):
+                os.remove(os.path.join(d, fn))
+        outs = []
+        for c in (B, A):
+            sc = os.path.join(d, "s%s.scn" % c["id"])
+            txt = scenario_text(c, True)
+            open(sc, "w").write(txt)
+            rcv, o, ev = V.sh([exe, sc], cwd=d, timeout=120)
+            os.remove(sc)
+            try:
+                impl = parse_impl(c, o) if "CONFIG err=ok" in o else None
+                traj = parse_traj(c, o)
+            except (ValueError, IndexError, KeyError):
+                impl, traj = None, None
+            outs.append((c, txt, rcv, o, impl, traj))
+        rp = {"kind": "replicas", "scenario_B": outs[0][1], "scenario": outs[1][1]}
+        ok = all(rcv == 0 and impl is not None and traj is not None and len(impl) == len(step_events(c)) and
+                 all("E" in s_ and "F" in s_ for s_ in impl) and "OUTPREFIX err=ok" in o for (c, txt, rcv, o, impl, traj) in outs)
+        if not ok:
+            run.count("replicas%s" % k, False)
+            run.violation("crash", "a walker of a two-replica run died or lost the bias (rc=%s)" % [t[2] for t in outs], rp)
+            continue
+        badB, _ = oracle(B, outs[0][4], outs[0][5])
+        if badB:
+            run.count("replicas%s" % k, False)
+            run.violation("replicas:first-walker:" + badB[0], badB[1], rp)
+            continue
+        bad, nrec = replica_oracle(A, outs[1][4], outs[1][5], outs[0][5])
+        run.count("replicas%s" % k, nrec >= 2 and len(outs[0][5]) >= 1)
+        run.dist("replica_cases")
+        run.dist("replica_steps_with_foreign_hills", nrec)
+        if bad:
+            run.violation(bad[0], bad[1], dict(rp, step=bad[2]))
+
+
 def setup():
     V.extract_model("C05", EXTRACT, DRIVER, ["ocaml/fops.ml"])
     V.build_prog("c05sim", PROGS["c05sim"])
@@ -1353,6 +1486,7 @@ def check(run):
             nsample += 1
             run.sample({"scenario": txt.split("\n")[:45], "last_step": {k: impl[-1].get(k) for k in ("it", "E", "F", "nhills", "nnew", "noff", "geom")}})
     reload_witness(run, exe, d)
+    replica_cases(run, exe, r, d, 8 if quick else 200)
     run.cov["correspondence"].update({"scenarios": len(cs)})
 
 
